@@ -231,6 +231,12 @@ pub(crate) fn is_plain_value_safe(s: &str, yaml_12: bool, in_flow: bool) -> bool
         return false;
     }
 
+    if in_flow && s.ends_with(" -") {
+        // `[a -]`: the scanner rejects a word-initial `-` that is followed by a flow indicator
+        // (the `,` / `]` / `}` that comes after the item).
+        return false;
+    }
+
     if in_flow {
         // In flow style, commas and brackets/braces are structural.
         // In values, ':' is allowed, but '#' would start a comment so still disallow '#'.
